@@ -6,13 +6,13 @@ id=$1; x=$2; wt=/tmp/${WT_PREFIX:-wt}-$id; src=$wt/_seed/$x
 export GOFLAGS=-mod=mod GOPROXY=off GOSUMDB=off GOTOOLCHAIN=local
 [ -f $src/patch.diff ] || { echo "no $src/patch.diff"; exit 2; }
 cd $wt || exit 2
-git checkout -q -- . ; rm -f demo_test.go
+git checkout -q -- . ; git clean -fdq -e _seed; rm -f demo_test.go
 name=$(grep -o 'func Test[A-Za-z0-9_]*' $src/demo_test.go | head -1 | sed 's/func //')
 cp $src/demo_test.go ./demo_test.go
 if go test -vet=off -count=1 -run "^$name\$" . >/dev/null 2>&1; then echo "demo passes WITHOUT patch: ok"; else echo "demo FAILS without patch: REJECT"; rm -f demo_test.go; exit 1; fi
 git apply $src/patch.diff || { echo "patch does not apply"; rm -f demo_test.go; exit 1; }
 if go test -vet=off -count=1 -run "^$name\$" . >/dev/null 2>&1; then echo "demo PASSES with patch: REJECT"; git checkout -q -- .; rm -f demo_test.go; exit 1; else echo "demo fails WITH patch: ok"; fi
 rm -f demo_test.go
-if go build ./... && go test -vet=off -count=1 ./... >/dev/null 2>&1; then echo "suite green with patch: ok"; else echo "suite RED with patch: REJECT"; git checkout -q -- .; exit 1; fi
-git checkout -q -- .
+if go build ./... && go test -vet=off -count=1 ./... >/dev/null 2>&1; then echo "suite green with patch: ok"; else echo "suite RED with patch: REJECT"; git checkout -q -- .; git clean -fdq -e _seed; exit 1; fi
+git checkout -q -- .; git clean -fdq -e _seed
 mkdir -p /verif/seeded/$id-$x && cp $src/patch.diff $src/demo_test.go $src/meta.json /verif/seeded/$id-$x/ && echo "kept /verif/seeded/$id-$x (demo test $name)"
